@@ -27,7 +27,7 @@ func valueDsKey(key string) ds.Key
   function
 
 func (v *ValueStore) Put(ctx context.Context, key string, rec *recpb.Record) error
-  props C05 C09
+  props C05 C09 C03 C06
   requires [key-match] str(rec.Key) == key
   ghostvar $validated bool = false
   ghostvar $existing *recpb.Record = nil
@@ -91,7 +91,7 @@ func (v *ValueStore) expired(rec *recpb.Record) bool
   ghost at call(Since): $age = $ret0
 
 func (v *ValueStore) Get(ctx context.Context, key string) (*recpb.Record, error)
-  props C05 C04 C09
+  props C05 C04 C09 C03 C06
   ghostvar $exp bool = true
   modifies nothing
   ensures [key-match] imp(result0 != nil, str(result0.Key) == key && result1 == nil)
@@ -157,7 +157,7 @@ func writeProviderEntry(ctx context.Context, dstore ds.Datastore, k []byte, p pe
   ghost at before call(Put): assert($arg1 == ds.NewKey(mkProvKeyFor(k, p)))
 
 func (pm *ProviderManager) AddProvider(ctx context.Context, k []byte, provInfo peer.AddrInfo) error
-  props C07 C14 C09
+  props C07 C14 C09 C03 C06 C08
   ghostvar $now time.Time = any
   ghostvar $wrote bool = false
   ghostvar $werr error = nil
@@ -181,7 +181,7 @@ func (pm *ProviderManager) Close() error
   ghostvar $c14cancel bool = false
 
 func (pm *ProviderManager) GetProviders(ctx context.Context, k []byte) ([]peer.AddrInfo, error)
-  props C07 C14 C09
+  props C07 C14 C09 C03 C06 C08
   modifies *
   ghost at before call(getProviderSetForKey): assert(held(pm.mu) && !pm.stopped && $arg1 == k)
 
